@@ -14,8 +14,14 @@ pub enum Item {
     Ping(u32),
     UnknownCommand(u8),
     StreamBegin(u32),
-    PeerBandwidth(u32),
+    /// Set Peer Bandwidth with limit type 0 hard / 1 soft / 2 dynamic (it concerns what the session
+    /// SENDS; it must not touch the window the peer announced for what the session receives)
+    PeerBandwidth(u32, u8),
     AckFromPeer(u32),
+    /// a well-formed message that makes handle_input return Err while the session stays usable
+    /// (client: onStatus without an info object / audio while not playing; server: connect without
+    /// an application name); delivered in calls of its own
+    Failing(u8),
     /// message with an unknown type id (22) and a body of this many bytes
     Blob(u32),
     /// window re-announcement
@@ -42,12 +48,21 @@ pub struct Case {
     pub calls: Vec<CallSize>,
 }
 
-fn encode_item(enc: &mut PeerEnc, it: &Item, ts: u32) -> Vec<u8> {
+fn encode_item(enc: &mut PeerEnc, it: &Item, ts: u32, server: bool) -> Vec<u8> {
     match it {
+        Item::Failing(k) => {
+            if server {
+                enc.send(&command("connect", 1.0, obj(vec![("tcUrl", st("rtmp://x/y"))]), vec![]), 0, ts)
+            } else if k % 2 == 0 {
+                enc.send(&command("onStatus", 0.0, V::Null, vec![]), 1, ts)
+            } else {
+                enc.send(&RM::Audio(vec![1, 2, 3, *k]), 1, ts)
+            }
+        }
         Item::Ping(t) => enc.send(&RM::UserControl(6, vec![*t]), 0, ts),
         Item::UnknownCommand(k) => enc.send(&command(["FCPublish", "releaseStream", "getStreamLength", "_checkbw"][*k as usize % 4], (*k as f64) + 2.0, V::Null, vec![st("abc")]), 0, ts),
         Item::StreamBegin(s) => enc.send(&RM::UserControl(0, vec![*s]), 0, ts),
-        Item::PeerBandwidth(v) => enc.send(&RM::PeerBw(*v, 2), 0, ts),
+        Item::PeerBandwidth(v, kind) => enc.send(&RM::PeerBw(*v, *kind % 3), 0, ts),
         Item::AckFromPeer(v) => enc.send(&RM::Ack(*v), 0, ts),
         Item::Blob(n) => enc.raw(22, gen::fill_bytes(*n, *n as usize), 1, ts),
         Item::Window(w) => enc.send(&RM::WindowAck(*w), 0, ts),
@@ -62,24 +77,37 @@ pub fn eval(c: &Case) -> Verdict {
     let mut enc = PeerEnc::new();
     let mut stream: Vec<u8> = Vec::new();
     let mut windows: Vec<(usize, u32)> = Vec::new(); // (offset one past the last byte, W)
+    let mut failing: Vec<(usize, usize)> = Vec::new(); // byte spans of the messages answered with Err
     let mut ts = 0u32;
     for it in &c.prefix {
         if let Item::Window(_) = it {
             continue; // the first announcement is the explicit one below
         }
         ts = ts.wrapping_add(10);
-        stream.extend(encode_item(&mut enc, it, ts));
+        let from = stream.len();
+        stream.extend(encode_item(&mut enc, it, ts, c.server));
+        if let Item::Failing(_) = it {
+            failing.push((from, stream.len()));
+        }
     }
     stream.extend(enc.send(&RM::WindowAck(w0), 0, ts));
     windows.push((stream.len(), w0));
     for it in &c.body {
         ts = ts.wrapping_add(10);
-        let bytes = encode_item(&mut enc, it, ts);
+        let from = stream.len();
+        let bytes = encode_item(&mut enc, it, ts, c.server);
         stream.extend(bytes);
         if let Item::Window(w) = it {
             windows.push((stream.len(), (*w).max(1)));
         }
+        if let Item::Failing(_) = it {
+            failing.push((from, stream.len()));
+        }
     }
+    // call boundaries are forced at both ends of every failing message, so that the call which
+    // completes it carries nothing else (nothing but a due Acknowledgement can then be lost with the Err)
+    let mut forced: Vec<usize> = failing.iter().flat_map(|(a, b)| [*a, *b]).collect();
+    forced.sort_unstable();
     // the session under test
     enum Sess {
         S(ServerSession),
@@ -120,6 +148,8 @@ pub fn eval(c: &Case) -> Verdict {
     let mut call_idx = 0usize;
     let mut calls_made = 0u64;
     let mut win_idx = 0usize;
+    let mut failed_calls = 0u64;
+    let mut ack_lost_with_error = false;
     while pos < stream.len() || call_idx < c.calls.len() {
         let cur_w = known.unwrap_or(w0) as usize;
         let size = match c.calls.get(call_idx) {
@@ -133,10 +163,14 @@ pub fn eval(c: &Case) -> Verdict {
             None => ((stream.len() - pos) / 3).max(1),
         };
         call_idx += 1;
-        let size = size.min(stream.len() - pos);
+        let mut size = size.min(stream.len() - pos);
+        if let Some(b) = forced.iter().find(|b| **b > pos && **b < pos + size) {
+            size = *b - pos;
+        }
         if pos >= stream.len() && size == 0 && call_idx > c.calls.len() {
             break;
         }
+        let completes_failing = size > 0 && failing.iter().any(|(_, e)| *e == pos + size);
         let piece = &stream[pos..pos + size];
         // model: the window known BEFORE this call governs it
         let mut expect: Option<u32> = None;
@@ -153,17 +187,43 @@ pub fn eval(c: &Case) -> Verdict {
             }
         }
         // implementation
+        let mut call_failed = false;
         let packets = match &mut sess {
             Sess::S(s) => match s.handle_input(piece) {
                 Ok(r) => split_server(r).packets,
+                Err(_) if completes_failing => {
+                    call_failed = true;
+                    Vec::new()
+                }
                 Err(e) => vfail!("server handle_input failed on valid traffic: {:?}", e),
             },
             Sess::C(s) => match s.handle_input(piece) {
                 Ok(r) => split_client(r).packets,
+                Err(_) if completes_failing => {
+                    call_failed = true;
+                    Vec::new()
+                }
                 Err(e) => vfail!("client handle_input failed on valid traffic: {:?}", e),
             },
         };
         calls_made += 1;
+        if call_failed {
+            failed_calls += 1;
+            if expect.is_some() {
+                // the Acknowledgement due in this call was given to the serializer and is lost with
+                // the Err (the API returns nothing): the outbound stream is no longer decodable by
+                // construction and every caller closes the connection; the case ends here
+                ack_lost_with_error = true;
+                break;
+            }
+            // no Acknowledgement was due: nothing was lost, the bytes of this call still count
+            pos += size;
+            while win_idx < windows.len() && windows[win_idx].0 <= pos {
+                known = Some(windows[win_idx].1);
+                win_idx += 1;
+            }
+            continue;
+        }
         let mut seen: Vec<u32> = Vec::new();
         for (b, d) in packets {
             match outdec.packet(&b, d) {
@@ -215,6 +275,8 @@ pub fn eval(c: &Case) -> Verdict {
     obs.class_if(w0 <= 64, "small-window");
     obs.class_if(w0 >= 65_535, "large-window");
     obs.class_if(w0 >= 0x7FFF_FFFF, "window-at-or-above-2^31-1");
+    obs.class_if(failed_calls > 0, "call-answered-with-err-and-history-continued");
+    obs.class_if(ack_lost_with_error, "ended-at-err-in-a-call-that-owed-an-acknowledgement");
     obs.count("acknowledgements", acks);
     obs.count("calls", calls_made);
     obs.nontrivial = acks >= 2 && non_multiple_call;
@@ -228,7 +290,8 @@ fn item(w: u32) -> BoxedStrategy<Item> {
         3 => any::<u32>().prop_map(Item::Ping),
         2 => any::<u8>().prop_map(Item::UnknownCommand),
         1 => any::<u32>().prop_map(Item::StreamBegin),
-        1 => any::<u32>().prop_map(Item::PeerBandwidth),
+        1 => (prop_oneof![any::<u32>(), 1u32..300, Just(w / 2 + 1), Just(w.saturating_mul(3))], 0u8..3).prop_map(|(v, k)| Item::PeerBandwidth(v, k)),
+        1 => any::<u8>().prop_map(Item::Failing),
         1 => any::<u32>().prop_map(Item::AckFromPeer),
         3 => (1u32..blob_max + 1).prop_map(Item::Blob),
     ]
